@@ -285,6 +285,24 @@ func genLegacyLayout(t *rapid.T, root, repo string, simpleOnly bool) *legacyLayo
 			}
 		}
 	}
+	// a tag that has the FORM of a fallback tag but points to an ordinary image index (platform images, no entry has a
+	// subject) - e.g. an index mirrored under its own digest as a tag, the way the repository's test data mirrors an
+	// image. It is not "an index of referrers": one of the other tags, to be kept.
+	if !simpleOnly && rapid.IntRange(0, 4).Draw(t, "lookAlikeTag") == 0 {
+		p1, _ := buildImage(mtImage, mtConfig, cfg, 2, nil, nil, nil, "", map[string]string{"platform": "1"})
+		p2, _ := buildImage(mtImage, mtConfig, cfg, 2, nil, nil, nil, "", map[string]string{"platform": "2"})
+		d1, d2 := l.blob("sha256", p1), l.blob("sha256", p2)
+		iraw, _ := buildIndex(mtIndex, []mdesc{{MediaType: mtImage, Digest: d1, Size: int64(len(p1))}, {MediaType: mtImage, Digest: d2, Size: int64(len(p2))}}, nil, "", map[string]string{"multi": "platform"})
+		id := l.blob("sha256", iraw)
+		tag := "sha256-" + id[7:]
+		if rapid.Bool().Draw(t, "lookAlikeOfOtherDigest") {
+			tag = "sha256-" + dig("sha256", []byte("some other digest"))[7:]
+		}
+		l.index = append(l.index, mdesc{MediaType: mtIndex, Digest: id, Size: int64(len(iraw)), Annotations: map[string]string{annRefNameL: tag}})
+		l.tags[tag] = id
+		l.manifests[id] = mtIndex
+		l.desc = append(l.desc, "ordinary index under a tag of the fallback form")
+	}
 	// unrelated content: a tagged image, an untagged image, a nested index, a stray blob
 	for i, n := 0, rapid.IntRange(0, 2).Draw(t, "nUnrelated"); i < n; i++ {
 		raw, _ := buildImage(mtImage, mtConfig, cfg, 2, nil, nil, nil, "", map[string]string{"unrelated": fmt.Sprint(i)})
